@@ -312,6 +312,19 @@ func (vc *VC) checkCallSites(ins *ssa.Call) {
 	cc := ins.Common()
 	name := callName(cc)
 	var ord int
+	firstItem := len(vc.items)
+	defer func() {
+		for _, cs := range vc.c.Cuts {
+			if cs.Name == name {
+				if ord == 0 {
+					ord = vc.callOrdinal(ins)
+				}
+				if cs.K == ord {
+					vc.cuts = append(vc.cuts, cutPoint{from: firstItem, at: len(vc.items)})
+				}
+			}
+		}
+	}()
 	for _, cs := range vc.c.CallSites {
 		if cs.Name != name {
 			continue
